@@ -131,6 +131,13 @@ def register(M):
             return c.v
         if h == 'BTreeMap':
             return M.btree_from(ex, items, dty)
+        if h == 'HashSet':
+            # a set = an association map with unit values (string elements compare by content)
+            g = generic_args(dty or '')
+            c = Cell(M.new_assoc(g[0] if g else '?', '()'))
+            for it in items:
+                M.assoc_insert(ex, c, (), c.v, it, UNIT, 'Option<()>')
+            return c.v
         if h == 'Result' and T.type_name_hint((generic_args(dty or '') or ['?'])[0])[0] == 'Vec':
             # Result<Vec<T>, E>: the first Err short-circuits
             oks = []
@@ -377,5 +384,7 @@ def register(M):
             return z3.BoolVal(True)
         if nx[0] == 'lit':
             nx, ny = ny, nx
+        elif ny[0] != 'lit' and ny[1] < nx[1]:
+            nx, ny = ny, nx        # one Boolean per unordered pair of names: `a == b` and `b == a` are the same fact
         return z3.Bool('%s==%s' % (nx[1], ny[1]))
     M.str_eq = str_eq
